@@ -31,6 +31,7 @@
 #include <cfenv>
 #include <cstring>
 #include <algorithm>
+#include <memory>
 
 using namespace shark;
 
@@ -336,6 +337,95 @@ static std::string doLinearTrain(std::vector<std::string> const& t){
 	return os.str() + orc.str();
 }
 
+
+// ---------------------------------------------------------------------------------------------
+// QpBoxLinear coordinate sweeps: `lnew`, `lsweep`  (model: Model/McLinear.lean)
+// ---------------------------------------------------------------------------------------------
+struct LinProbe: public QpBoxLinear<RealVector>{
+	LinProbe(ClassificationDataset const& d, std::size_t dim): QpBoxLinear<RealVector>(d, dim){}
+	RealVector const& alphaVec() const{ return this->m_alpha; }
+	RealVector const& weights() const{ return this->m_weights; }
+};
+struct LinSession{
+	ClassificationDataset data;
+	std::unique_ptr<LinProbe> solver;
+	double bound = 1, reg = 0, offset = 0;
+	bool exact = true;
+} LS;
+
+static std::string linDump(){
+	std::ostringstream os;
+	os << "A=[";
+	for(std::size_t i = 0; i != W.n; ++i) os << (i ? "," : "") << bits(LS.solver->alphaVec()(i));
+	os << "] W=[";
+	for(std::size_t k = 0; k != W.d; ++k) os << (k ? "," : "") << bits(LS.solver->weights()(k));
+	os << "]";
+	return os.str();
+}
+static std::string linOracle(){
+	std::ostringstream os;
+	for(std::size_t i = 0; i != W.n; ++i){ double a = LS.solver->alphaVec()(i); if(!(a >= 0 && a <= LS.bound)){ os << " !oracle linear-box i=" << i; break; } }
+	for(std::size_t k = 0; k != W.d; ++k){
+		double w = 0, scale = 0;
+		for(std::size_t i = 0; i != W.n; ++i){ double t = LS.solver->alphaVec()(i) * (W.y[i] > 0 ? 1.0 : -1.0) * W.x[i](k); w += t; scale += std::fabs(t); }
+		if(std::fabs(w - LS.solver->weights()(k)) > 1e-9 * (1 + scale)){ os << " !oracle linear-w-inconsistent k=" << k; break; }
+	}
+	return os.str();
+}
+static double shiftv(long long num, long long sh){ return std::ldexp((double)num, -(int)sh); }
+
+static std::string doLinOp(std::vector<std::string> const& t){
+	std::vector<long long> a;
+	for(std::size_t i = 1; i < t.size(); ++i){ char* e = 0; long long v = std::strtoll(t[i].c_str(), &e, 10); if(*e) return "bad-op"; a.push_back(v); }
+	if(t[0] == "lnew"){
+		if(a.size() != 7 || W.n == 0 || W.k != 2) return "bad-op";
+		LS.bound = shiftv(a[0], a[1]); LS.reg = shiftv(a[2], a[3]); LS.offset = shiftv(a[4], a[5]);
+		LS.data = createLabeledDataFromRange(W.x, W.y, (std::size_t)a[6]);
+		std::feclearexcept(FE_ALL_EXCEPT);
+		LS.solver.reset(new LinProbe(LS.data, W.d));
+		LS.solver->setOffset(LS.offset);
+		LS.exact = std::fetestexcept(FE_INEXACT) == 0;
+		return linDump() + " #x=" + (LS.exact ? "1" : "0") + linOracle();
+	}
+	if(t[0] == "lsweep"){
+		if(a.empty() || !LS.solver) return "bad-op";
+		std::size_t ell = W.n;
+		unsigned seed = (unsigned)a[0];
+		// the schedule the solver is going to use in its first epoch (all preferences are 1): same calls on the same RNG state
+		random::globalRng.seed(seed);
+		std::vector<std::size_t> sched(ell);
+		{
+			double psum = (double)ell; std::size_t pos = 0;
+			for(std::size_t i = 0; i < ell; i++){
+				double p = 1.0;
+				double num = (psum < 1e-6) ? ell - pos : std::min((double)(ell - pos), (ell - pos) * p / psum);
+				std::size_t n = (std::size_t)std::floor(num);
+				double prob = num - n;
+				if(random::coinToss(random::globalRng, prob)) n++;
+				for(std::size_t j = 0; j < n && pos < ell; j++){ sched[pos] = i; pos++; }
+				psum -= p;
+			}
+			std::shuffle(sched.begin(), sched.end(), random::globalRng);
+		}
+		std::ostringstream so; for(std::size_t j = 0; j != ell; ++j) so << (j ? "." : "") << sched[j];
+		std::string orc;
+		if(a.size() > 1){
+			bool same = a.size() == 1 + ell;
+			for(std::size_t j = 0; same && j != ell; ++j) same = (std::size_t)a[1 + j] == sched[j];
+			if(!same) orc += " !oracle schedule-not-reproducible";
+		}
+		random::globalRng.seed(seed);
+		QpStoppingCondition stop; stop.minAccuracy = 0.0; stop.maxIterations = ell;     // exactly one epoch
+		QpSolutionProperties prop;
+		std::feclearexcept(FE_ALL_EXCEPT);
+		LS.solver->solve(LS.bound, LS.reg, stop, &prop);
+		// (the statistics block of solve() and the Timer are inexact by themselves: the flag is only meaningful
+		//  together with the schedule check; exactness of the sweep itself is judged by the driver: Rat = Float)
+		return linDump() + " #sched=" + so.str() + orc + linOracle();
+	}
+	return "bad-op";
+}
+
 // tables for the decomposition-level harness (c16s.cpp): F in {WWCS, ATMATS, ADMLLW, MMR}
 void c16MakeTables(std::string const& f, std::size_t c, QpSparseArray<double>& nu, QpSparseArray<double>& M){
 	LinearKernel<RealVector> kernel;
@@ -370,6 +460,8 @@ int main(int argc, char** argv){
 			std::cout << "probes m=" << W.m << "\n";
 		}else if(t[0] == "train"){
 			std::cout << doTrain(t) << std::endl;
+		}else if(t[0] == "lnew" || t[0] == "lsweep"){
+			std::cout << doLinOp(t) << std::endl;
 		}else if(t[0] == "ltrain"){
 			std::cout << doLinearTrain(t) << std::endl;
 		}else{
